@@ -125,3 +125,7 @@ mod test {
         assert!(t2 < t);
     }
 }
+
+#[cfg(any(kani, libtw2_verif))]
+#[path = "/verif/kani/net_time.rs"]
+mod verif_kani;
